@@ -88,11 +88,42 @@ macro_rules! parts {
 }
 
 static SYS: LockStep = LockStep { property: "C06", probes: true, seed: Some(&seed) };
+static SYS_MED: LockStep = LockStep { property: "C06", probes: false, seed: Some(&seed) };
+
+fn alpha_medium(cfg: &Cfg) -> Vec<Op> {
+    let mut v = alpha(cfg);
+    for n in [3u32, 4, 7, 255, 256, 257] {
+        for cmd in [Su(Some(n)), Sd(Some(n)), Il(Some(n)), Dl(Some(n))] {
+            v.push(c(cmd));
+        }
+    }
+    for (a, b) in [(2u32, 4u32), (3, 4), (3, 5), (1, 3), (4, 5), (2, 256)] {
+        v.push(c(Decstbm(Some(a), Some(b))));
+    }
+    v
+}
+
+fn medium_part(tier: Tier) -> Part<'static, LockStep> {
+    Part {
+        name: "scroll-lockstep-medium-screen",
+        sys: &SYS_MED,
+        cfgs: match tier {
+            Tier::Quick => cfgs(&[(6, 5)], &[None]),
+            Tier::Thorough => cfgs(&[(6, 5), (7, 6)], &[None, Some(0)]),
+        },
+        alphabet: &alpha_medium,
+        depth: tier.pick(3, 4),
+        seconds: tier.pick(20.0, 1800.0),
+        validated: true,
+        nontrivial: Some("lockstep_transitions"),
+    }
+}
 
 pub fn run(ctx: &Ctx) -> Report {
     let mut rep = Report::new();
     let p = parts!(ctx.tier, &SYS);
     run_part(ctx, &mut rep, &p);
+    run_part(ctx, &mut rep, &medium_part(ctx.tier));
     rep.rule = "lock-step BFS of (real Vt, reference terminal) from a screen whose rows carry distinct content: LF/IND/NEL/RI, SU/SD/IL/DL x counts {default,1,2,h-1,h,h+1,65535}, valid and invalid DECSTBM pairs, wrap-causing text, with cursor placement on every row, coloured pen, alternate screen, resizes; after every transition all rows of lines() (screen and scrollback, cells) and the margins are compared".into();
     rep.assumptions = vec!["scrollback compared with unlimited scrollback (and limit 0 for the alternate-screen clause); wrap marks after scrolls are adopted (not specified)".into()];
     rep
@@ -100,6 +131,9 @@ pub fn run(ctx: &Ctx) -> Report {
 
 pub fn replay(ctx: &Ctx, v: &Value) -> bool {
     let tier = if v["tier"] == "thorough" { Tier::Thorough } else { Tier::Quick };
+    if v["part"] == "scroll-lockstep-medium-screen" {
+        return replay_part(ctx, &medium_part(tier), v);
+    }
     let p = parts!(tier, &SYS);
     replay_part(ctx, &p, v)
 }
